@@ -346,6 +346,53 @@ def check_ctc_group(ctx, key, g, V, D, quick):
                               "score numerator %.6f over D^%d, spec %d" % (float(val[j]), g[i]["L"], g[i]["num"]),
                               case_of(i, extra, float(val[j])))
                 break
+    # long utterances: every behaviour repeated R times back to back.  The best path is the collapse of the repeated
+    # frame-wise argmax sequence and the log score is R times the single score -- far below what a product of
+    # probabilities can represent, as for any real utterance of a few hundred frames
+    R = 120
+    for dtype in (torch.float, torch.double):
+        for bf in (False, True):
+            x = torch.full((N, n * R, V), math.nan, dtype=dtype)
+            exp_paths, exp_scores = [], []
+            for i in range(N):
+                Li = g[i]["L"]
+                if Li:
+                    one = _sp.log_weights(W[i:i + 1, :Li], dtype, _sp.dyadic_shifts(rng, (1, Li)))[0]
+                    x[i, :Li * R] = one.repeat(R, 1)
+                am = W[i, :Li].argmax(1).tolist() * R
+                path, last = [], None
+                for a in am:
+                    if a != blank and a != last:
+                        path.append(a)
+                    last = a
+                exp_paths.append(path)
+                exp_scores.append(R * (math.log(g[i]["num"]) - Li * math.log(D)) if Li else 0.0)
+            xin = x if bf else x.transpose(0, 1).contiguous()
+            extra = dict(is_probs=False, batch_first=bf, blank_idx=blank, dtype=str(dtype), in_lens=True, module=False,
+                         repeated=R)
+            try:
+                mx, paths, olens = _sp.quiet(F.ctc_greedy_search, xin, L * R, blank, bf, False)
+            except Exception as ex:
+                ctx.violation(dict(site="ctc_greedy_search", kind="exception"), "raised %r on a long utterance" % ex,
+                              case_of(0, extra, repr(ex)))
+                continue
+            ctx.case(n=N)
+            if not bf:
+                paths = paths.t()
+            for i in range(N):
+                ol = int(olens[i])
+                got_path = paths[i, :max(ol, 0)].tolist()
+                if got_path != exp_paths[i]:
+                    ctx.violation(dict(site="ctc_greedy_search", kind="paths"),
+                                  "long utterance (%d frames): path of length %d, expected length %d" % (g[i]["L"] * R, ol, len(exp_paths[i])),
+                                  case_of(i, extra, dict(out_len=ol)))
+                    break
+                got = float(mx[i])
+                if not abs(got - exp_scores[i]) <= 1e-4 * max(1.0, abs(exp_scores[i])):
+                    ctx.violation(dict(site="ctc_greedy_search", kind="score"),
+                                  "long utterance (%d frames): log score %r, expected %r (= %d x the single score)"
+                                  % (g[i]["L"] * R, got, exp_scores[i], R), case_of(i, extra, got))
+                    break
     ctx.traces += N
 
 
@@ -471,7 +518,8 @@ def record_walks(ctx, book, cfg, seed_base, n_rounds, exc_seen):
         tabs = [_sp.random_table(rng, V, T, D, force_eos=ieos if unlimited else None) for _ in range(N)]
         ids = book.add_tables(tabs)
         dtype = torch.double if rng.random() < 0.7 else torch.float
-        lm = _sp.make_lm(tabs, V, dtype=dtype)
+        # half of the models keep their recurrent state by writing into the dictionary they were handed
+        lm = _sp.make_lm(tabs, V, dtype=dtype, inplace=rng.random() < 0.5)
         walk = RandomWalk(lm, eos_arg)
         init = {"elem": torch.arange(N)}
         torch.manual_seed(ctx.seed * 1000003 + seed_base + rnd)
@@ -954,6 +1002,16 @@ def replay(ctx, case):
 
         V, D = case["V"], case["D"]
         W = torch.tensor([case["w"]])
+        if case.get("repeated"):
+            R, Li = case["repeated"], case["L"]
+            dtype = torch.float if "float32" in case["dtype"] else torch.double
+            x = _sp.log_weights(W[:, :Li], dtype)[0].repeat(R, 1).unsqueeze(0)
+            mx, paths, ol = _sp.quiet(F.ctc_greedy_search, x, torch.tensor([Li * R]), case["blank_idx"], True, False)
+            want = R * (math.log(case["expected_num"]) - Li * math.log(D)) if Li else 0.0
+            print("replay ctc_greedy_search on %d frames: log score %r, expected %r" % (Li * R, float(mx[0]), want))
+            if not abs(float(mx[0]) - want) <= 1e-4 * max(1.0, abs(want)):
+                ctx.violation(dict(site="ctc_greedy_search", kind="score"), "replayed case still differs", case)
+            return
         x = (W.double() / D) if case["is_probs"] else _sp.log_weights(W, torch.double)
         mx, paths, ol = _sp.quiet(F.ctc_greedy_search, x, torch.tensor([case["L"]]) if case["in_lens"] else None,
                                   case["blank_idx"], True, case["is_probs"])
